@@ -42,6 +42,10 @@ CHECKS = {
    tech='three-stage symbolic execution of the crate MIR (decode symbolic text, encode the decoded value, decode again; z3 decides whether the two values can differ), reader-contract observation on every path, and byte positions of the lazy row iterator; witnesses replayed natively incl. through a chunking/interrupting reader',
    text='(a) For every byte string of length <= 3/4 and 26 skeletons with 2-3 symbolic bytes that the real decoder accepts, the decoded value (symbolic leaves) is re-encoded and decoded again from MIR; the solver is asked for bytes where the second value differs or the re-encoded text is rejected. (b) On every explored path the reader model records the calls made on it: only read_exact with a 1-byte buffer may occur (then chunk sizes and Interrupted are invisible by read_exact\'s contract); each accepted witness is additionally decoded natively through a reader that splits reads and returns Interrupted. (c) parse_grid_iterator is driven row by row over grids with symbolic cells; the bytes consumed when a row is handed out must not exceed the end of that row plus the next token plus one byte (native positions must match).',
    note='Bounds as C03. Hayson re-encode stability is not part of this check. Known finding (open): a missing cell in a one-column grid is re-encoded as an empty line. read_exact contract trusted (std).'),
+ 'C08': dict(engine=M, cat='model_checking', design='7 (C08), 4.5',
+   tech='symbolic execution of the crate MIR: Display of a filter tree with symbolic leaves, then Filter::try_from over those bytes (print->parse), and the same parse over the text of a reference printer with forked spacing choices; z3 decides whether the trees can differ; witnesses replayed natively',
+   text='45 filter tree shapes (every term kind, all six comparison operators, literals of every kind the syntax admits, paths of 1-3 segments, and/or/parentheses combinations) with symbolic names (1-3 bytes, not keywords) and symbolic literal payloads are printed by the real Display impls and parsed back by the real lexer/parser from MIR: the solver is asked for leaves where the text is rejected or the tree differs. The same trees are spelled by a reference printer written from the filter grammar with every token-separator style (space, tab, LF, CRLF, double space, nothing where legal) and must parse to the same tree.',
+   note='Bounds: <= 3 terms, parentheses depth <= 2, names <= 3 bytes, literal payloads 1-2 chars/digits; one separator style per sentence for required gaps and one for optional gaps. The reference printer is trusted (written from docHaystack Filters).'),
 }
 NA = {
  'C14': 'quantifies over thread interleavings on dashmap\'s sharded locks: Kani has no thread model, mirsym is sequential and dashmap is outside the MIR dump; no solver-based engine on this image reaches it (DESIGN.md section 8)',
